@@ -52,6 +52,43 @@ def violation(bucket, detail, labels=(), sig=None, counts=None):
                    sig=sig, counts=counts)
 
 
+class CaseTimeout(BaseException):
+    """Raised by the per-case watchdog (BaseException: it must pass through
+    the `except Exception` clauses between the check and the converter)."""
+
+
+CASE_LIMIT = int(os.environ.get('T4GC_CASE_LIMIT', '300'))
+
+
+def _on_alarm(_signum, _frame):
+    raise CaseTimeout()
+
+
+def guarded_check(mod, case):
+    """mod.check(case) under a watchdog: the conversion of one small
+    generated deck takes milliseconds to seconds; one that is still running
+    after CASE_LIMIT seconds (an endless loop in the converter) is reported as
+    a violation with the case as its replay instead of blocking the check for
+    ever."""
+    import signal
+    try:
+        signal.signal(signal.SIGALRM, _on_alarm)
+        signal.setitimer(signal.ITIMER_REAL, CASE_LIMIT)
+    except ValueError:            # not in the main thread: no watchdog
+        return mod.check(case)
+    try:
+        return mod.check(case)
+    except CaseTimeout:
+        try:
+            text = mod.render_case(case)
+        except Exception:
+            text = None
+        return violation('hang:case-not-finished-in-%ds' % CASE_LIMIT,
+                         {'limit_s': CASE_LIMIT, 'deck': text}, ['hang'])
+    finally:
+        signal.setitimer(signal.ITIMER_REAL, 0)
+
+
 def skip(reason, labels=(), counts=None):
     return Outcome('skip', bucket=reason, labels=labels, counts=counts)
 
@@ -176,7 +213,7 @@ def run_shard(args):
                     now - state['first_fail_t'] > shrink_budget:
                 return
             try:
-                out = mod.check(case)
+                out = guarded_check(mod, case)
             except HarnessError:
                 stats.harness_error = traceback.format_exc()
                 return
@@ -287,7 +324,7 @@ def run_replay(pid, path):
     mod = importlib.import_module('vlib.props.' + pid.lower())
     with open(path) as f:
         payload = json.load(f)
-    out = mod.check(payload['case'])
+    out = guarded_check(mod, payload['case'])
     if out.kind == 'violation':
         known = load_known(pid)
         ent = match_known(known, out.bucket)
@@ -315,7 +352,7 @@ def run_regress(pid, mod, stats):
             continue
         with open(os.path.join(d, name)) as f:
             payload = json.load(f)
-        out = mod.check(payload['case'])
+        out = guarded_check(mod, payload['case'])
         stats.counts['regress_cases'] += 1
         if out.kind == 'violation':
             ent = match_known(known, out.bucket)
